@@ -4,6 +4,7 @@ package mc
 
 import (
 	"bytes"
+	"context"
 	"encoding/json"
 	"fmt"
 	"os"
@@ -12,6 +13,7 @@ import (
 	"strings"
 	"sync"
 	"sync/atomic"
+	"time"
 
 	u "github.com/utreexo/utreexo"
 	vs "github.com/utreexo/utreexo/verifsync"
@@ -219,6 +221,25 @@ func (ci *c12Inst) prepareWriter(ops []c12WOp) ([]wcall, error) {
 			proof := L.Proof(op.Set)
 			hs := ref.Hashes(op.Set)
 			out = append(out, wcall{op, func() error { return m.Ingest(hs, proof) }})
+		case "badverify": // rejected: wrong leaf hash (error paths must release the lock too)
+			proof := L.Proof(op.Set)
+			hs := ref.Hashes(op.Set)
+			hs[0] = ref.FreshHash(3)
+			out = append(out, wcall{op, func() error { return m.Verify(hs, proof, true) }})
+		case "badpartial": // rejected: no proof hashes supplied although some are missing
+			td := L.Targets(op.Set)
+			hs := ref.Hashes(op.Set)
+			out = append(out, wcall{op, func() error { return m.VerifyPartialProof(td, hs, nil, true) }})
+		case "badmodify": // rejected: proof with a wrong hash
+			proof := L.Proof(op.Dels)
+			dh := ref.Hashes(op.Dels)
+			if len(proof.Proof) > 0 {
+				proof.Proof = append([]Hash(nil), proof.Proof...)
+				proof.Proof[0] = ref.FreshHash(4)
+			} else {
+				dh[0] = ref.FreshHash(4)
+			}
+			out = append(out, wcall{op, func() error { return m.Modify(nil, dh, proof) }})
 		case "prune":
 			hs := ref.Hashes(op.Set)
 			out = append(out, wcall{op, func() error { return m.Prune(hs) }})
@@ -390,22 +411,37 @@ func c12Expected(sc c12Scenario) (*c12Expect, error) {
 			return nil, err
 		}
 		werr := make([]string, len(wcalls))
-		for i := 0; i < k; i++ {
-			if err := wcalls[i].call(); err != nil {
-				werr[i] = err.Error()
+		var per [][]string
+		// run the sequential replica as the only thread of a scheduler, so that an operation
+		// that blocks on a lock it leaked itself shows up as a deadlock instead of hanging
+		sq := &vs.Sched{MaxSteps: 200000}
+		ci.h.s = sq
+		ci.h.lock = ci.m.VerifLock()
+		ci.h.lock.Attach(sq)
+		th := sq.Spawn(func() {
+			for i := 0; i < k; i++ {
+				if err := wcalls[i].call(); err != nil {
+					werr[i] = err.Error()
+				}
 			}
+			for _, prog := range sc.Readers {
+				var rs []string
+				for _, q := range prog {
+					rs = append(rs, runQuery(ci, q, pre))
+				}
+				per = append(per, rs)
+			}
+		})
+		sq.Run(nil)
+		ci.h.s = nil
+		ci.h.lock.Attach(nil)
+		if sq.Deadlock || sq.Overrun || th.Panic != nil {
+			return nil, fmt.Errorf("SEQUENTIAL: the operations do not complete even without concurrency (deadlock=%v panic=%v) after %d writer ops", sq.Deadlock, th.Panic, k)
 		}
+		ci.h.disc = nil
 		if k == len(sc.Writer) {
 			e.finalKey = DumpMap(ci.m)
 			e.werr = werr
-		}
-		var per [][]string
-		for _, prog := range sc.Readers {
-			var rs []string
-			for _, q := range prog {
-				rs = append(rs, runQuery(ci, q, pre))
-			}
-			per = append(per, rs)
 		}
 		e.res = append(e.res, per)
 	}
@@ -623,6 +659,7 @@ func c12Scenarios(thorough bool) []c12Scenario {
 				{{Kind: "modify", Dels: []int{1}, Adds: 3}},
 				{{Kind: "modify", Dels: []int{1}, Adds: 3}, {Kind: "undo"}},
 				{{Kind: "read", Dels: []int{0}, Adds: 2}},
+				{{Kind: "badmodify", Dels: []int{0}}, {Kind: "badverify", Set: []int{2}}, {Kind: "modify", Dels: []int{0}, Adds: 1}},
 			}, slots: []int{0, 1, 2, 3}, poss: []uint64{0, 2, 4, 5}},
 		{name: "full5zombie", full: true, tr: 3, prep: []Op{blk(nil, 5), blk([]int{4}, 0)},
 			w: [][]c12WOp{
@@ -641,6 +678,7 @@ func c12Scenarios(thorough bool) []c12Scenario {
 				{{Kind: "partialproof", Set: []int{2}}},
 				{{Kind: "ingest", Set: []int{4}}},
 				{{Kind: "verify", Set: []int{1}}, {Kind: "prune", Set: []int{1}}},
+				{{Kind: "badpartial", Set: []int{2}}, {Kind: "badverify", Set: []int{0}}, {Kind: "verify", Set: []int{2}}},
 			}, slots: []int{0, 1, 2, 5}, poss: []uint64{0, 2, 8, 12}},
 	}
 	if thorough {
@@ -706,6 +744,9 @@ func init() {
 			return nil, err
 		}
 		exp, err := c12Expected(cs.Sc)
+		if err != nil && strings.HasPrefix(err.Error(), "SEQUENTIAL:") {
+			return []Violation{{Prop: "C12", Sig: "deadlock or panic in a single goroutine: a sequence of calls does not complete even without concurrency", Detail: err.Error(), Case: Case{Engine: "sched12", Payload: payload}}}, nil
+		}
 		if err != nil {
 			return nil, err
 		}
@@ -726,7 +767,7 @@ func init() {
 func checkC12(c *Ctx) {
 	bound := pick(c, 2, 3)
 	scs := c12Scenarios(c.Thorough())
-	c.Cov.Rule = "scenario = prepared MapPollard state (full/partial, zombie roots, climbed leaves, several TotalRows) x writer program (Modify with deletions and additions crossing a power of two, Modify+Undo, Verify(remember), VerifyPartialProof(remember), Ingest, Prune, Read of another state's bytes) x reader programs (one or two queries on one or two threads from GetRoots, GetStump, Prove, Verify, GetLeafPosition, GetLeafHashPositions, GetHash, GetMissingPositions, GetNumLeaves, GetTreeRows, Write); for every scenario every schedule with at most `bound` preemptions is executed on the real code under a cooperative scheduler whose points are thread start/end, every RWMutex operation, every Nodes/CachedLeaves access and every sink write; oracle per execution: no panic, no deadlock, lock discipline at every map access, every query result equal to the sequential result in a whole-block state admissible for its call/return interval with a consistent order (brute force), final state equal to the sequential post-state; plus a separate free-running -race pass over the same scenarios; states = scenarios, transitions = executions (schedules), non-trivial = executions with at least one preemption"
+	c.Cov.Rule = "scenario = prepared MapPollard state (full/partial, zombie roots, climbed leaves, several TotalRows) x writer program (Modify with deletions and additions crossing a power of two, Modify+Undo, Verify(remember), VerifyPartialProof(remember), Ingest, Prune, Read of another state's bytes, and programs that start with rejected calls - wrong hash, missing proof - so that error paths release the lock) x reader programs (one or two queries on one or two threads from GetRoots, GetStump, Prove, Verify, GetLeafPosition, GetLeafHashPositions, GetHash, GetMissingPositions, GetNumLeaves, GetTreeRows, Write); for every scenario every schedule with at most `bound` preemptions is executed on the real code under a cooperative scheduler whose points are thread start/end, every RWMutex operation, every Nodes/CachedLeaves access and every sink write; oracle per execution: no panic, no deadlock, lock discipline at every map access, every query result equal to the sequential result in a whole-block state admissible for its call/return interval with a consistent order (brute force), final state equal to the sequential post-state; plus a separate free-running -race pass over the same scenarios; states = scenarios, transitions = executions (schedules), non-trivial = executions with at least one preemption"
 	c.Cov.Bound["preemption_bound"] = bound
 	c.Cov.Bound["scenarios"] = len(scs)
 	perScenarioCap := int64(pick(c, 60000, 600000))
@@ -738,7 +779,9 @@ func checkC12(c *Ctx) {
 		n, oc, capped, err := c12Explore(c, sc, bound, perScenarioCap, func(sig, detail string, schedule []int) {
 			c.Col.Add(Violation{Prop: "C12", Sig: sig, Detail: fmt.Sprintf("%s: %s", sc.Name, detail), Case: mkCase("sched12", c12Case{Sc: sc, Schedule: schedule})})
 		})
-		if err != nil {
+		if err != nil && strings.HasPrefix(err.Error(), "SEQUENTIAL:") {
+			c.Col.Add(Violation{Prop: "C12", Sig: "deadlock or panic in a single goroutine: a sequence of calls does not complete even without concurrency", Detail: sc.Name + ": " + err.Error(), Case: mkCase("sched12", c12Case{Sc: sc})})
+		} else if err != nil {
 			c.Col.Note("C12 scenario could not be run: " + sc.Name + ": " + err.Error())
 			fmt.Println("HARNESS: scenario", sc.Name, "could not be run:", err)
 		}
@@ -781,7 +824,9 @@ func checkC12(c *Ctx) {
 		c.Cov.NotExhaustive("race pass skipped")
 		return
 	}
-	cmd := exec.Command(raceBin, "c12race", c.Tier)
+	rctx, cancel := context.WithTimeout(context.Background(), time.Duration(pick(c, 300, 1500))*time.Second)
+	defer cancel()
+	cmd := exec.CommandContext(rctx, raceBin, "c12race", c.Tier)
 	cmd.Env = append(os.Environ(), "GORACE=halt_on_error=0 exitcode=0")
 	var stderr bytes.Buffer
 	cmd.Stderr = &stderr
@@ -789,7 +834,16 @@ func checkC12(c *Ctx) {
 	races := strings.Count(stderr.String(), "WARNING: DATA RACE")
 	c.Cov.SetExtra("race_pass", strings.TrimSpace(string(outb)))
 	c.Cov.SetExtra("race_reports", races)
-	if err != nil {
+	if n := strings.Count(stderr.String(), "FREE-RUNNING EXECUTION DID NOT FINISH"); n > 0 {
+		c.Col.Note("free-running executions that did not finish (deadlocks are decided by the scheduler exploration)")
+		c.Cov.NotExhaustive(fmt.Sprintf("%d free-running executions did not finish", n))
+	}
+	if rctx.Err() != nil {
+		// never a violation by itself: a real deadlock is found deterministically by the
+		// scheduler exploration above; here it only means the pass could not complete
+		c.Col.Note("free-running race pass did not finish within its time limit")
+		c.Cov.NotExhaustive("free-running race pass did not finish within its time limit")
+	} else if err != nil {
 		c.Col.Note("race pass failed to run: " + err.Error())
 		c.Cov.NotExhaustive("race pass failed to run")
 	}
@@ -827,10 +881,13 @@ func c12Race(args []string) int {
 	if thorough {
 		iters = 30
 	}
-	runs := 0
+	runs, stuck := 0, 0
 	for _, sc := range scs {
 		if !strings.Contains(sc.Name, "2r-") && !strings.Contains(sc.Name, "1r-q") {
 			continue
+		}
+		if stuck >= 3 {
+			break // something blocks systematically; the scheduler exploration decides what
 		}
 		for it := 0; it < iters; it++ {
 			ci, err := c12New(sc)
@@ -870,10 +927,19 @@ func c12Race(args []string) int {
 				}()
 			}
 			close(start)
-			wg.Wait()
+			fin := make(chan struct{})
+			go func() { wg.Wait(); close(fin) }()
+			select {
+			case <-fin:
+			case <-time.After(15 * time.Second):
+				// goroutines blocked on each other: leave them and go on with the next scenario
+				stuck++
+				fmt.Fprintf(os.Stderr, "FREE-RUNNING EXECUTION DID NOT FINISH: %s\n", sc.Name)
+				it = iters
+			}
 			runs++
 		}
 	}
-	fmt.Printf("free-running executions: %d over %d scenarios x %d iterations", runs, len(scs), iters)
+	fmt.Printf("free-running executions: %d over %d scenarios x %d iterations; %d did not finish", runs, len(scs), iters, stuck)
 	return 0
 }
